@@ -22,6 +22,9 @@ pub enum XAct {
     Poke,
     /// invalidate the dynamic sum from a child's function, at the next stabilise
     Invalidate,
+    /// add a plain dependency (no callback) on a fresh constant to the dynamic sum from the top
+    /// level, between two stabilises (as the construction-time dependencies are added)
+    TopAdd,
     /// arm the observability callback of the dynamic sum: the next time it fires it writes
     /// child variable `i` (a write made inside stabilise: deferred to its end)
     HookArm { i: usize, v: i64 },
